@@ -194,3 +194,64 @@ func diffBoundedAt(c *Ctx, f *ssa.Function, site ssa.Instruction, high, low ssa.
 	}
 	return (&Cut{Fn: f, Target: isInstr(site), EdgeCut: anyEdge(cuts...)}).Run(c)
 }
+
+const intInf = int64(1) << 62
+
+// edgeIntBound: taking the edge implies lo <= A <= hi for the integer value A
+// (intInf / -intInf for unbounded sides), whatever constant and operator the
+// comparison is spelled with (`x <= 0`, `x < 1`, `!(x > 0)`, `0 >= x`).
+// nonNeg: A is known to be >= 0 (a len, a count).
+func edgeIntBound(isA func(ssa.Value) bool, lo, hi int64, nonNeg bool) EdgePred {
+	return func(b *ssa.BasicBlock, s int) bool {
+		ifi := ifOf(b)
+		if ifi == nil {
+			return false
+		}
+		K, ok := constOperand(ifi.Cond)
+		if !ok {
+			return false
+		}
+		tab := condTable(ifi.Cond, isA, func(v ssa.Value) bool { k, ok := constInt(v); return ok && k == K })
+		if tab[0] == triUnknown && tab[1] == triUnknown && tab[2] == triUnknown {
+			return false
+		}
+		possible := func(o ordering) bool {
+			if tab[o] == triUnknown {
+				return true
+			}
+			takes := 1
+			if tab[o] == triTrue {
+				takes = 0
+			}
+			return takes == s
+		}
+		pLT, pEQ, pGT := possible(ordLT), possible(ordEQ), possible(ordGT)
+		lower, upper := -intInf, intInf
+		switch {
+		case pLT:
+		case pEQ:
+			lower = K
+		case pGT:
+			lower = K + 1
+		default:
+			return true // unreachable edge
+		}
+		switch {
+		case pGT:
+		case pEQ:
+			upper = K
+		case pLT:
+			upper = K - 1
+		}
+		if nonNeg && lower < 0 {
+			lower = 0
+		}
+		if nonNeg && K <= 0 && !pEQ && !pGT {
+			return true // A < K <= 0 is impossible for a non-negative value
+		}
+		if nonNeg && K == 0 && pLT && !pEQ && pGT {
+			lower = 1 // A != 0 and A >= 0
+		}
+		return lower >= lo && upper <= hi
+	}
+}
